@@ -284,10 +284,8 @@ def one_history(ctx, rng, N, batch, ci, dist):
                     ctx.violation("oracle", f"run {rid}: {nm} received its own default object for {p} (not a copy)", case=case)
                 elif code != 1:
                     ctx.violation("oracle", f"run {rid}: {nm}.{p} received a pre-existing object (code {code}) instead of a fresh copy of the default", case=case)
-                shared_in_nested = nested and sum(1 for m in g["nodes"] if p in m["inputs"]) > 1
-                # (a nested graph resolves a default ONCE per run at the wrapper and hands that one copy to every inner consumer: sharing
-                #  inside a run, not between runs, so the pristine-on-entry check applies to the first consumer only)
-                if bf != n["defaults"][p] and not shared_in_nested:
+                # (since fix e86f9d3 a nested run resolves its defaults itself: every inner consumer gets its own copy, as in a flat graph)
+                if bf != n["defaults"][p]:
                     ctx.violation("oracle", f"run {rid}: {nm}.{p} saw {bf} on entry, the default is {n['defaults'][p]}: state leaked from another call", case=case)
             elif p in g["bound"] and p not in base_inputs and isinstance(w.bound_objs[p], list):
                 bcode = 2 + next(k for k, o in enumerate(w.known) if o is w.bound_objs[p])
@@ -306,9 +304,7 @@ def one_history(ctx, rng, N, batch, ci, dist):
             if key in ref and results[i] != ref[key]:
                 ctx.violation("oracle", f"equal inputs, different results: run {i} returned {results[i]}, an earlier run {ref[key]}", case=case)
             ref.setdefault(key, results[i])
-    # ---------------- model (flat graphs)
-    if nested:
-        return len(w.rec)
+    # ---------------- model (a nested run resolves its values like the flat run of the same nodes: the same model decides both)
     try:
         n0 = len(w.known)
         node_terms = {n["name"]: c_node(N, w, n) for n in g["nodes"]}
@@ -318,7 +314,7 @@ def one_history(ctx, rng, N, batch, ci, dist):
         for i in range(R):
             gi = run_graphs[i]
             prov = inputs_for(i)
-            bnd = {p: w.bound_objs[p] for p in g["bound"] if p in gi.inputs.all}
+            bnd = {p: w.bound_objs[p] for p in g["bound"] if p in (w.full_spec.all if nested else gi.inputs.all)}
             d = c_dict(N, w, prov)
             runs.append(f"(mk_mrun {d} {d} {c_dict(N, w, bnd)})")
         batch.add_def(ci, "h0", c_list([c_list([c_Z(z) for z in c]) for c in w.initial]), "mheap")
